@@ -154,9 +154,21 @@ pub fn do_step(rig: &ServerRig, step: &Value, rng: &mut Rng) -> Value {
             (42, "ok", "file") => Some(memfd("ret", 0x1000)),
             _ => None,
         };
-        s.inflight = (0x2000, 0, 2, 128);
-        s.vring_base = 7;
+        s.inflight = (rng.u64_edge(), rng.u64_edge(), 1 + rng.below(65535) as u16, 1 + rng.below(65535) as u16);
+        s.vring_base = rng.below(65536) as u32;
+        s.queue_num = rng.u64_edge();
+        s.max_mem_slots = rng.u64_edge();
+        s.config_fill = rng.next() as u8;
+        s.shmem = vec![rng.u64_edge(), rng.u64_edge(), rng.u64_edge()];
     }
+    let hv = {
+        let s = rig.core.s.lock().unwrap();
+        json!({"features": limbs(s.features), "proto": limbs(s.proto | 8), "queue_num": limbs(s.queue_num),
+            "vring_base": limbs(s.vring_base as u64), "max_mem_slots": limbs(s.max_mem_slots), "config_fill": s.config_fill,
+            "inflight": [limbs(s.inflight.0), limbs(s.inflight.1), s.inflight.2, s.inflight.3],
+            "shmem": s.shmem.iter().map(|x| limbs(*x)).collect::<Vec<_>>(),
+            "ret_file": s.ret_file.as_ref().map(|f| fd_id(f.as_raw_fd())).unwrap_or_else(|| "none".into())})
+    };
     let b = wire::build(code, nr, var, v, rng);
     let fds: Vec<i32> = b.files.iter().map(|f| f.as_raw_fd()).collect();
     let fdids: Vec<String> = fds.iter().map(|f| fd_id(*f)).collect();
@@ -203,7 +215,7 @@ pub fn do_step(rig: &ServerRig, step: &Value, rng: &mut Rng) -> Value {
         "ev": "req", "c": code, "nr": nr, "h": h, "var": var, "v": bits(v),
         "shape": step["shape"].as_str().unwrap_or(""),
         "flags": b.flags, "size": b.size, "blen": b.body.len(), "nfds": fds.len(), "fdids": fdids,
-        "args": b.args, "sent": sent_ok, "seg": seg, "cut": cut, "fdseg": fdseg, "mlen": bytes.len(),
+        "args": b.args, "hv": hv, "sent": sent_ok, "seg": seg, "cut": cut, "fdseg": fdseg, "mlen": bytes.len(),
         "res": res, "calls": calls, "ncalls": calls.len(),
         "out": msgs, "nout": msgs.len(), "out_extra": extra, "leftover": leftover, "eof": eof,
     })
